@@ -108,7 +108,10 @@ def run(ctx):
     sruns = [dict(args=["hash", "message", "-"], stdin_chunks=bursts(msg)), dict(args=["hash", "transaction", "-"], stdin_chunks=bursts(tx_doc.encode())),
              dict(args=["hash", "typeddata", "-"], stdin_chunks=bursts(td_doc.encode())), dict(args=["hash", "data", "-"], stdin_chunks=bursts(msg)),
              dict(args=["hash", "data", "-"], stdin_chunks=[big[:8192], big[8192:8200], big[8200:]]), dict(args=["hex", "encode"], stdin_chunks=bursts(msg))]
-    swant = [want[0], want[2], want[4], want[7], "0x" + pyref.keccak256(big).hex(), "0x" + msg.hex()]
+    # ... and named by a path that is a pipe rather than a regular file
+    sruns += [dict(args=["hash", "data", "/dev/stdin"], stdin_chunks=[msg]), dict(args=["hash", "message", "/dev/stdin"], stdin_chunks=bursts(msg)),
+              dict(args=["hash", "typeddata", "/dev/stdin"], stdin_chunks=[td_doc.encode()]), dict(args=["hash", "transaction", "/dev/stdin"], stdin_chunks=[tx_doc.encode()])]
+    swant = [want[0], want[2], want[4], want[7], "0x" + pyref.keccak256(big).hex(), "0x" + msg.hex(), want[7], want[0], want[4], want[2]]
     for rn, r, w in zip(sruns, ctx.cli(sruns), swant):
         ctx.count("stdin-in-bursts")
         ctx.distinct(("bursts", tuple(rn["args"]), len(rn["stdin_chunks"][0])))
@@ -167,7 +170,14 @@ def run(ctx):
             dict(args=["address", "--mnemonic", a["phrase"], "--hd-path", "m/0"], env=dict(ACCOUNT_INDEX="1")),
             dict(args=["address", "--mnemonic", a["phrase"], "--account-index", "1"], env=dict(HD_PATH="m/0")),
             dict(args=["export", "--mnemonic", a["phrase"]], env=dict(HD_PATH="m/0", ACCOUNT_INDEX="3")),
-            dict(args=["new", "--vanity-prefix", "0x", "--vanity-account-index", "1", "--vanity-hd-path", "m/0"])]
+            dict(args=["new", "--vanity-prefix", "0x", "--vanity-account-index", "1", "--vanity-hd-path", "m/0"]),
+            # an explicitly given index equal to the default (0) is still "both selectors"
+            dict(args=["address", "--mnemonic", a["phrase"], "--account-index", "0", "--hd-path", "m/0"]),
+            dict(args=["export", "--mnemonic", a["phrase"], "--account-index=00", "--hd-path", "m/44'/60'/0'/0/9"]),
+            dict(args=["public-key", "--mnemonic", a["phrase"], "--hd-path", "m/0"], env=dict(ACCOUNT_INDEX="0")),
+            dict(args=["address", "--mnemonic", a["phrase"], "--account-index", "0"], env=dict(HD_PATH="m/0")),
+            dict(args=["sign", "--mnemonic", a["phrase"], "--account-index", "+0", "--hd-path", "m/1", "raw", "0x" + "11" * 32]),
+            dict(args=["new", "--vanity-prefix", "0x", "--vanity-account-index", "0", "--vanity-hd-path", "m/0"])]
     for rn, r in zip(conf, ctx.cli(conf)):
         ctx.count("selector-conflict")
         ctx.distinct(("conflict", tuple(rn["args"]), json.dumps(rn.get("env"))))
